@@ -102,6 +102,7 @@ type stepRun struct {
 	hfCalls  int
 	anyCalls int
 	faultJournalLen int
+	faulted  bool
 	hfVals   []interface{}
 	gid      string
 	maxSteps int
@@ -379,7 +380,10 @@ func (r *stepRun) hostFault(call otto.FunctionCall, isHf bool) {
 	for _, hf := range r.c.HostFaults {
 		if (hf.Any && hf.Call == r.anyCalls) || (!hf.Any && isHf && hf.Call == r.hfCalls) {
 			r.st.Fault("host_" + hf.Kind)
-			r.faultJournalLen = len(r.journal)
+			if !r.faulted {
+				r.faulted = true
+				r.faultJournalLen = len(r.journal) // the run may legitimately diverge from here on
+			}
 			switch hf.Kind {
 			case "js_type":
 				panic(call.Otto.MakeTypeError("injected host TypeError"))
@@ -923,6 +927,9 @@ func judgeHost(c *StepCase, r0, r1 *RunResult) *Violation {
 		}
 	}
 	n := r.faultJournalLen
+	if !r.faulted {
+		n = len(r1.Journal)
+	}
 	if n > len(r1.Journal) || !isPrefix(r1.Journal[:n], r0.Journal) {
 		return viol("C18", "journal_not_prefix", "journal before the faulting host call is not a prefix of the reference journal")
 	}
